@@ -112,11 +112,19 @@ Section Style.
     | None => merge_maps (map snd (filter (fun e => mmatch I (snd (fst e)) elem) (elsMatchingAndStyles p)))
     end.
 
+  (* the value ends in an unterminated escape (an odd number of trailing backslashes) or in an escaped semicolon: rebuilt
+     into "prop: value; ..." it would not be read back as the same declaration (fix F18) *)
+  Fixpoint count_prefix (c : N) (l : bytes) : nat :=
+    match l with x :: l' => if x =? c then S (count_prefix c l') else O | [] => O end.
+  Definition unterminated (val : bytes) : bool :=
+    Nat.odd (count_prefix 92 (rev val)) || (match rev val with c :: _ => c =? 59 | [] => false end).
+
   Definition decl_allowed (sps : amap (list (style_policy M))) (prop val : bytes) : bool :=
     let tprop := fold_left (fun acc pre => trim_prefix acc pre) style_prefixes (to_lower prop) in
     let tval := remove_unicode (to_lower val) in
     (* an undecodable escape empties the value: the declaration is dropped (fix F16) *)
-    negb ((match tval with [] => true | _ => false end) && negb (match val with [] => true | _ => false end)) &&
+    (negb ((match tval with [] => true | _ => false end) && negb (match val with [] => true | _ => false end)) &&
+     negb (unterminated val)) &&
     ((match lookup tprop sps with Some spl => existsb (style_accepts tval) spl | None => false end) ||
      (match lookup tprop (globalStyles p) with Some spl => existsb (style_accepts tval) spl | None => false end)).
 
